@@ -70,6 +70,15 @@ class VCoro(V):
         self.name = name
 
 
+class VClosure(V):
+    __slots__ = ("node", "shim", "parent")
+
+    def __init__(self, node: Any, shim: Any, parent: Any):
+        self.node = node
+        self.shim = shim
+        self.parent = parent
+
+
 class Obligation:
     def __init__(self, name: str, status: str, backend: str, ms: float, model: Any = None,
                  detail: str = "", path: int = 0):
@@ -626,6 +635,25 @@ class Interp:
                 # reflection on concrete containers (cls.__dict__.values() …) is concrete data
                 return wrap(list(py()) if py.__name__ in ("values", "keys", "items") else py())
             raise Unsupported(f"uncontracted call to {py!r}")
+        if isinstance(callee, VClosure):
+            def run() -> V:
+                if len(self.frames) > 60:
+                    raise Unsupported("recursion depth")
+                fr2 = Frame(callee.shim, callee.parent.owner)
+                fr2.env = dict(callee.parent.env)
+                self.bind_args(callee.node, callee.shim, fr2, args, kwargs)
+                self.frames.append(fr2)
+                try:
+                    try:
+                        self.exec_block(callee.node.body, fr2)
+                    except _Return as r:
+                        return r.value
+                    return NONE
+                finally:
+                    self.frames.pop()
+            if isinstance(callee.node, ast.AsyncFunctionDef):
+                return VCoro(run, callee.shim.__qualname__)
+            return run()
         if isinstance(callee, VObj):
             found = self.class_lookup(callee.cls, "__call__")
             if found:
@@ -1027,7 +1055,18 @@ class Interp:
         models.match_stmt(self, st, fr)
 
     def st_FunctionDef(self, st: ast.FunctionDef, fr: Frame) -> None:
-        raise Unsupported(f"nested function {st.name} in {fr.qualname}")
+        """A nested function is a closure over the defining frame (read access to its locals at
+        call time; `nonlocal` rebinding, decorators and default expressions are outside)."""
+        a = st.args
+        if st.decorator_list or a.defaults or a.kw_defaults or any(
+                isinstance(n, (ast.Nonlocal, ast.Yield, ast.YieldFrom)) for n in ast.walk(st)):
+            raise Unsupported(f"nested function {st.name} in {fr.qualname} (decorator, default "
+                              f"or nonlocal)")
+        shim = types.SimpleNamespace(
+            __qualname__=f"{fr.qualname}.<locals>.{st.name}", __module__=getattr(
+                fr.fn, "__module__", "?"), __defaults__=(), __kwdefaults__={},
+            __globals__=fr.globals, __name__=st.name)
+        fr.env[st.name] = VClosure(st, shim, fr)
 
     st_AsyncFunctionDef = st_FunctionDef
 
